@@ -32,8 +32,21 @@ func rangeText(r [2]int) string {
 }
 
 func (r *fileRenderer) rangesX(dl *Decl, ind string) {
-	for _, x := range dl.XR {
-		r.w.put(ind + "extensions " + rangeText(x) + ";\n")
+	if dl.XOpt != "" && len(dl.XR) > 0 {
+		// one statement for all ranges, with options that therefore belong to every range
+		var rs []string
+		for _, x := range dl.XR {
+			rs = append(rs, rangeText(x))
+		}
+		opts := "verification = UNVERIFIED"
+		if dl.XOpt == "vr" {
+			opts += ", (.a.zrep) = 7"
+		}
+		r.w.put(ind + "extensions " + strings.Join(rs, ", ") + " [" + opts + "];\n")
+	} else {
+		for _, x := range dl.XR {
+			r.w.put(ind + "extensions " + rangeText(x) + ";\n")
+		}
 	}
 	for _, x := range dl.RR {
 		r.w.put(ind + "reserved " + rangeText(x) + ";\n")
